@@ -231,14 +231,38 @@ func run(c *wk.Case) {
 	F := w.build()
 	ops := opsFor(F, w.subsetOK)
 	n := 2 + t.Weighted(4, 3, 2, 1, 1)
+	if t.Chance(1, 8) {
+		n = t.Range(7, 12) // thresholds such as "eight callers at once" need many tasks
+	}
+	// "stampede": many goroutines do the same thing to the same font at the
+	// same time (a server writing one font for many requests)
+	stampede := t.Chance(1, 6)
+	var stampOp op
+	if stampede {
+		n = t.Range(8, 16)
+		var heavy []op
+		for _, o := range ops {
+			switch o.name {
+			case "Write", "WriteTrueTypePDF", "WriteOpenTypeCFFPDF", "AsCFF.Write", "Subset+Write", "NewLayouter+Layout", "MakeGlyphNames", "ExplainGsub", "ExplainGpos":
+				heavy = append(heavy, o)
+			}
+		}
+		stampOp = heavy[t.Draw(len(heavy))]
+	}
 	plans := make([]*taskPlan, n)
 	var desc []string
 	for i := range plans {
 		p := &taskPlan{}
 		k := t.Range(2, 6)
+		if stampede {
+			k = t.Range(1, 2)
+		}
 		var names []string
 		for j := 0; j < k; j++ {
 			o := ops[t.Draw(len(ops))]
+			if stampede {
+				o = stampOp
+			}
 			p.ops = append(p.ops, o)
 			names = append(names, fmt.Sprintf("%s(%d)", o.name, o.arg))
 		}
@@ -277,6 +301,9 @@ func run(c *wk.Case) {
 	c.Count("tasks", n)
 	c.Count("task_switches", st.Switches)
 	c.Count("yields_because_blocked_on_a_lock", st.BlockedYields)
+	c.Count("blocks_on_virtual_channels_or_waitgroups", st.ChanBlocks)
+	c.Count("library_goroutines_left_waiting_(not_judged)", st.LeftBlocked)
+	c.Count("goroutines_started_by_the_library_(scheduled_as_tasks)", st.Spawned)
 	for _, s := range st.TraceShort {
 		c.Logf("switch at step %d: task %d -> %d (%s)", s.Step, s.From, s.To, s.Site)
 	}
